@@ -126,7 +126,7 @@ def run(R):
         ks = M.ask("rdef_keys", env.encode())
         keys[env] = {core.atom_bytes(k).decode(): (b == "true") for k, b in ks} if isinstance(ks, list) else {}
 
-    def run_cmd(sb, args, env_name, label, expect_fail=False, plan_required=False, globals_=("--no-auto-init", "-y")):
+    def run_cmd(sb, args, env_name, label, expect_fail=False, plan_required=False, globals_=("--no-auto-init", "-y"), either=False):
         rc, o, e = sb.run(list(globals_) + args)
         stats["cli_runs"] += 1
         stats["by_command"][label] = stats["by_command"].get(label, 0) + 1
@@ -136,7 +136,7 @@ def run(R):
         doc, why = one_doc(o)
         if rc != 0:
             stats["failing_runs"] += 1
-            if not expect_fail:
+            if not expect_fail and not either:
                 fails.append({"why": f"{label}: unexpected failure (exit {rc})", **ctx})
             if o.strip() == b"":
                 R.known("failed_command_writes_no_document", f"{label}: exit {rc}, standard output empty")
@@ -145,7 +145,7 @@ def run(R):
             elif isinstance(doc, dict) and doc.get("success") is True:
                 fails.append({"why": f"{label}: exit {rc} but the document says success", **ctx})
             return rc, None
-        if expect_fail:
+        if expect_fail and not either:
             fails.append({"why": f"{label}: exit 0 although the operation cannot have succeeded", **ctx})
             return rc, doc
         if doc is None:
@@ -272,6 +272,28 @@ def run(R):
             run_cmd(sb, ["rename", s, t, s + "_root", "--output", "json"], "RenameResult.json", "rename <root named with the term>", plan_required=True)
             run_cmd(sb, ["plan", t, s, s + "_root", "--output", "json"], "PlanResult.json", "plan <root named with the term>", plan_required=True)
             run_cmd(sb, ["search", t, s + "_root", "--output", "json"], "PlanResult.json", "search <root named with the term>", plan_required=True)
+        # damaged workspace state (a crash or a full disk truncated a file under .renamify, a merge left conflict markers, a hand edit):
+        # whatever the command then does - recover with a warning or fail - standard output stays one document or empty
+        damages = [("truncated", lambda b: b[:40]), ("empty", lambda b: b""), ("garbage", lambda b: b"\x00\xff not json"),
+                   ("conflict markers", lambda b: b"<<<<<<< HEAD\n" + b + b"\n=======\n[]\n>>>>>>> other\n"),
+                   ("entry missing a field", lambda b: b'[{"id": "abc"}]'), ("wrong type", lambda b: b'{"entries": 3}')]
+        if R.tier == "quick":
+            damages = [damages[(i + k) % len(damages)] for k in (0, 3)]
+        for dname, dmg in damages:
+            for target in ("history.json", "plan.json"):
+                with cli.Sandbox(tree) as sb:
+                    run_cmd(sb, ["rename", s, t, "--output", "json"], "RenameResult.json", "rename", plan_required=True)
+                    run_cmd(sb, ["plan", t, s, "--output", "json"], "PlanResult.json", "plan", plan_required=True)
+                    f = sb.root / ".renamify" / target
+                    if not f.exists():
+                        continue
+                    orig = f.read_bytes()
+                    stats["damaged_state_runs"] = stats.get("damaged_state_runs", 0) + 1
+                    for cmd, envn in ((["status"], "StatusResult.json"), (["history"], "HistoryResult.json"), (["apply"], "ApplyResult.json"),
+                                      (["undo", "latest"], "UndoResult.json"), (["redo", "latest"], "RedoResult.json"),
+                                      (["rename", t, s], "RenameResult.json"), (["plan", s, t], "PlanResult.json")):
+                        f.write_bytes(dmg(orig))
+                        run_cmd(sb, cmd + ["--output", "json"], envn, f"{cmd[0]} ({target}: {dname})", either=True)
         # conflicting renames -> exit 1
         with cli.Sandbox(tree + [{"p": t + "_dir", "k": "d", "m": 0o755}]) as sb:
             run_cmd(sb, ["rename", s, t, "--output", "json"], "RenameResult.json", "rename (occupied destination)", expect_fail=True)
